@@ -141,6 +141,15 @@ func solveOne(o *Obligation, scratch string, timeoutS int, cross bool) {
 		if o.Sweep && t > 4 {
 			t = 4
 		}
+		if o.Expect == "canary" {
+			// a canary only has to fail: one solver, short timeout
+			if si > 0 {
+				break
+			}
+			if t > 2 {
+				t = 2
+			}
+		}
 		if o.Expect == "sat" {
 			// cover queries: only a definite `unsat` matters
 			if si > 0 {
@@ -181,7 +190,7 @@ func solveOne(o *Obligation, scratch string, timeoutS int, cross bool) {
 			break
 		}
 	}
-	if o.Status == "unknown" && o.Expect != "sat" {
+	if o.Status == "unknown" && o.Expect != "sat" && o.Expect != "canary" {
 		// model finding: drop the quantified background axioms; a model of the
 		// relaxed query is only a candidate (it is replayed on the real code)
 		var b strings.Builder
